@@ -68,6 +68,25 @@ def run_case(seed: int) -> List[Dict[str, Any]]:
         pushes.append((collection_id, obj))
         return orig_push(cls, xs, collection_id, obj)
 
+    # the drivers' own instructions are observed where they are made (not where they are pushed)
+    from nrel.hive.state.driver_state.autonomous_driver_state.autonomous_available import AutonomousAvailable
+    from nrel.hive.state.driver_state.human_driver_state.human_driver_state import HumanAvailable, HumanUnavailable
+
+    driver_made: List[Any] = []
+    driver_classes = (AutonomousAvailable, HumanAvailable, HumanUnavailable)
+    orig_gen = {c: c.generate_instruction for c in driver_classes}
+
+    def wrap(c):
+        def generate_instruction(self, sim_, env_, previous_instructions=None):
+            i = orig_gen[c](self, sim_, env_, previous_instructions)
+            if i is not None:
+                driver_made.append(i)
+            return i
+
+        return generate_instruction
+
+    for c in driver_classes:
+        c.generate_instruction = wrap(c)
     ss.apply_instructions = apply_spy
     DictOps.add_to_stack_dict = classmethod(push_spy)
     try:
@@ -79,10 +98,11 @@ def run_case(seed: int) -> List[Dict[str, Any]]:
                 sim = simulation_state_ops.add_request_safe(sim, w.new_request(sim)).unwrap()
             pushes.clear()
             captured.clear()
+            driver_made.clear()
             sim, step = step.update(sim, w.env)
             gen_lists = [list(g.emitted) for g in step.ordered_instruction_generators]
             scripted_ids = {id(i) for g in gen_lists for i in g}
-            drivers = [obj for _, obj in pushes if id(obj) not in scripted_ids]
+            drivers = list(driver_made)
             recs.append(
                 {
                     "op": "stack",
@@ -97,6 +117,8 @@ def run_case(seed: int) -> List[Dict[str, Any]]:
     finally:
         ss.apply_instructions = orig_apply
         DictOps.add_to_stack_dict = classmethod(orig_push)
+        for c in driver_classes:
+            c.generate_instruction = orig_gen[c]
     return recs
 
 
